@@ -436,8 +436,21 @@ def qcvar_case(draw):
     dim = draw(st.sampled_from(dims)) if which == "quadratic_cvar" else 0
     x = draw(sample_spec(dtype, shape, scales=QCVAR_SCALES[dtype], shifts=QCVAR_SHIFTS[dtype], kinds=QCVAR_KINDS))
     tgt = draw(target_spec(dtype, shape, scales=QCVAR_SCALES[dtype], shifts=[0.0, 1.0])) if which == "QuadraticCVaR" else {"kind": "none"}
+    # books of very different size side by side (one bisection, one precision for the whole call)
+    col_scales = draw(st.sampled_from([None, None, None, [1.0, 1e3], [1e4, 1.0, 1e-2], [1.0, 1e5]])) if len(shape) >= 2 and dtype == "float64" else None
     return {"dtype": dtype, "which": which, "x": x, "target": tgt, "dim": dim, "lam": draw(LAM_S),
-            "default_lam": draw(st.integers(0, 9)) == 0, "k1_probe": False}
+            "default_lam": draw(st.integers(0, 9)) == 0, "k1_probe": False, "col_scales": col_scales}
+
+
+def build_qcvar_x(case):
+    x = build(case["x"], case["dtype"])
+    cs = case.get("col_scales")
+    if cs and x.ndim >= 2:
+        flat = x.reshape(x.shape[0], -1).copy()
+        for j in range(flat.shape[1]):
+            flat[:, j] = flat[:, j] * flat.dtype.type(cs[j % len(cs)])
+        x = flat.reshape(x.shape)
+    return x
 
 
 @contextmanager
@@ -469,12 +482,16 @@ def qcvar_analyse(cols, lam, dtype):
 def compare_qcvar(ctx, label, got, cols, an, prec, eps, probe_k1=False) -> bool:
     """Compare each column with the exact minimum. Returns True if some comparison was made."""
     compared = False
+    wmax = max(float(a.range) for a in an) + 2e-8
     for (idx, col), q in zip(cols, an):
         g = got[idx].item()
         if q.in_k1 and not probe_k1:
             ctx.exclude("K1-region(max(x-mean)<=1/(2lam))")
             continue
-        tols = q.tolerances(prec, eps, level_relerr=2.0 ** -23)
+        # every bracket is halved in every iteration until the WIDEST one is below the precision of the call: a narrower
+        # column ends with a proportionally narrower bracket (the float-spacing floor is added inside tolerances())
+        prec_col = prec * (float(q.range) + 2e-8) / wmax
+        tols = q.tolerances(prec_col, eps, level_relerr=2.0 ** -23)
         if tols is None:
             ctx.exclude("qcvar:stationarity-level-below-dtype-resolution")
             continue
@@ -505,7 +522,9 @@ def check_qcvar(case, ctx):
 
     dtype, which = case["dtype"], case["which"]
     eps = EPS[dtype]
-    x = build(case["x"], dtype)
+    x = build_qcvar_x(case)
+    if case.get("col_scales"):
+        ctx.cls("columns:mixed-scales")
     target, d = apply_target(x, case["target"], dtype)
     dim = None if case["dim"] == "none" else case["dim"]
     out_shape, cols = reduce_view(d, dim)
@@ -531,7 +550,7 @@ def check_qcvar(case, ctx):
 
 def _case_qcvar_columns(case):
     dtype = case["dtype"]
-    x = build(case["x"], dtype)
+    x = build_qcvar_x(case)
     _, d = apply_target(x, case["target"], dtype)
     dim = None if case["dim"] == "none" else case["dim"]
     _, cols = reduce_view(d, dim)
